@@ -189,3 +189,23 @@ def variant_of_label(rv_discr, label):
         if dv == label:
             return name
     return None
+
+
+def source_fields(fn, op, depth=4):
+    """field names of the place an operand was (transitively) copied/moved/borrowed from, keeping projections"""
+    from .prog import place_fields
+    if op["k"] not in ("copy", "move"):
+        return []
+    pl = op["pl"]
+    own = place_fields(pl)
+    if own or depth == 0:
+        return own
+    defs = _assign_defs(fn).get(pl["l"], [])
+    if len(defs) != 1:
+        return []
+    rv = defs[0][1]["rv"]
+    if rv["k"] == "use":
+        return source_fields(fn, rv["op"], depth - 1)
+    if rv["k"] in ("ref", "copy_for_deref"):
+        return place_fields(rv["pl"]) or source_fields(fn, {"k": "copy", "pl": rv["pl"]}, depth - 1)
+    return []
